@@ -61,9 +61,9 @@ def body(c):
     tier = "quick" if q else "thorough"
     cases = []
     for cfg in ["MC_BitStream_rw_%s.cfg" % tier, "MC_BitStream_rd_%s.cfg" % tier]:
-        r = c.tlc_design("MC_BitStream", cfg, heap="12g", timeout=3000)
+        r = c.tlc_design("MC_BitStream", cfg, heap="12g", timeout=3000, coverage=True)
         cases += tla_to_json_lines(r.prints, "CASE")
-    r = c.tlc_design("MC_NatCode", "MC_NatCode_%s.cfg" % tier, heap="12g", timeout=3000)
+    r = c.tlc_design("MC_NatCode", "MC_NatCode_%s.cfg" % tier, heap="12g", timeout=3000, coverage=True)
     cases += tla_to_json_lines(r.prints, "CASE")
     cpath = os.path.join(c.work, "cases.ndjson")
     with open(cpath, "w") as f:
